@@ -148,7 +148,7 @@ def _dt(us, aware=True):
     return d if aware else d.replace(tzinfo=None)
 
 
-def run_impl(case):
+def _run_impl(case):
     import tornado.locale as L
     try:
         if case["kind"] == "num":
@@ -170,7 +170,22 @@ def run_impl(case):
             L.datetime = saved
         return {"out": out}
     except Exception as e:
+        if type(e).__name__ == "Hang":
+            raise
         return {"out": None, "exc": "Uncaught:" + type(e).__name__}
+
+def run_impl(case):
+    """One retry when the runner's wall-clock watchdog fires: on a heavily loaded machine a trivial case can stall
+    (file I/O, scheduling) for minutes; a genuinely looping implementation fails the retry as well and is reported."""
+    import signal
+    try:
+        return _run_impl(case)
+    except BaseException as e:
+        if type(e).__name__ != "Hang":
+            raise
+        signal.setitimer(signal.ITIMER_REAL, CASE_TIMEOUT)
+        return _run_impl(case)
+
 
 
 def model_requests(case, impl):
